@@ -10,7 +10,9 @@ silent      must produce the same verdict as the unchanged tree: (a) every line 
             parentheses and line breaks normalised), (c) every function-local renamed, (d) the arms of every if/else swapped
             under a negated test, (e) the rewrites of selftest/variants.py (logging inserted, comparisons flipped,
             returns through a temporary, else after a terminating arm, annotations; augmented assignments expanded,
-            De Morgan, conjunctions nested, early continue, an unrelated bookkeeping store).  An alarm here means a rule
+            De Morgan, conjunctions nested, early continue, an unrelated bookkeeping store; lock statement forms,
+            filter vs comprehension, chained ranges, swapped independent statements, delegating wrappers, reworded
+            messages, stripped docstrings, split chained assignments, extracted helper methods, and three compositions).  An alarm here means a rule
             matches text or positions.
 
 Results go to the evidence file (coverage.selftest); they never decide the exit status.
@@ -152,7 +154,7 @@ def _invert_ifs(src):
 def _all_variants():
     from . import variants
     return (("shifted-lines", _shift_lines), ("re-emitted-by-ast.unparse", _reemit), ("locals-renamed", _rename_locals),
-            ("if-else-arms-swapped", _invert_ifs)) + variants.EXTRA + variants.EXTRA2 + variants.EXTRA3 + variants.EXTRA4
+            ("if-else-arms-swapped", _invert_ifs)) + variants.EXTRA + variants.EXTRA2 + variants.EXTRA3 + variants.EXTRA4 + variants.EXTRA5 + variants.COMBOS
 
 
 def _seed_job(a):
